@@ -171,6 +171,28 @@ ALL = ["C%02d" % i for i in range(1, 21)]
 PENDING_REASON = "check not built yet in this round; see DESIGN.md section 5 for the planned model and theorems"
 
 
+# later additions to the claims (theorems and ties added after the first build)
+CHECKS["C01"]["text"] += (" The per-connection loop of listen(), with its bookkeeping regenerated from server.rs, writes the specification's output for every "
+                          "segmentation (C01_listen_worker_realises_spec).")
+CHECKS["C02"]["text"] += (" The caller that keeps its reader equals the unbounded caller for every capacity of handle()'s inner buffer; the reference slice caller "
+                          "(test.rs, ping example) equals it within one 8192-byte block (beyond: known finding SliceCallerBeyondBlock); the listen() loop ends on every "
+                          "input and writes the specification's output. Also run: both callers at block edges, a unit-wise upgraded handler over sockets, the repository's "
+                          "own multiplex example under several segmentations.")
+CHECKS["C02"]["note"] = COMMON_NOTE + "Both the careful caller (keeps its reader) and the reference slice caller are run and modelled."
+CHECKS["C06"]["text"] += (" Over sockets: the listen() loop model ends on every input (also a peer closing mid-message) with the specification's output; an independent "
+                          "request-shape oracle, late followers and truncated streams are run against listen().")
+CHECKS["C11"]["text"] += (" The language theorem is proved in both directions, parse_idl s = POk i <-> RIdl i s, so an accept/reject or structural difference between "
+                          "IDL::try_from and the model parser is reported as a failing input.")
+CHECKS["C12"]["text"] += " The model parser never runs out of fuel (parse_idl_never_out_of_fuel)."
+CHECKS["C17"]["text"] += (" The structs also round trip through text: de_text (print (ser r)) = r for every schema with distinct names (request/reply/info instances), "
+                          "with sharpness witnesses for the depth and well-formedness hypotheses.")
+CHECKS["C18"]["text"] += " The model keeps proxy.rs's single address variable; the cache discipline is regenerated from proxy.rs (tr/proxy.py)."
+CHECKS["C19"]["text"] += (" A rejected call moves nobody and, for every history of one client, the consumed steps are exactly the canonical chain; the transition table and "
+                          "the rejected-call discipline are regenerated from main.rs (tr/cert.py); histories are run through the real server and the extracted state machine.")
+for _k in CHECKS:
+    CHECKS[_k]["text"] += " Tie also: the text of the hand-modelled functions is pinned (tr/shapes.py) and every props file proves its pin."
+
+
 def main():
     checks = []
     for pid in ALL:
